@@ -163,7 +163,7 @@ pub fn run(ctx: &Ctx, rep: &mut Report) {
             if !matches!(guard(|| Deck::get(i as usize)), Ok(w) if w == exp) {
                 match confirm(judge, Case::new("deck.get", &[i])) {
                     Some(v) => acc.violate(v),
-                    None => monitor::machinery_fail("C18 deck.get mismatch not reproduced"),
+                    None => super::unreproduced("C18 deck.get mismatch not reproduced"),
                 }
             }
         }
